@@ -303,6 +303,11 @@ pub fn k_air_ood_frame_parse() {
 // 20-byte instance); its callee Table::from_bytes is under contract below; BatchMerkleProof::read_from
 // is not (see the note in the c19_merkle unit), only its component decoders are (c26_serde unit).
 
+// (A guard for repaired defect F8a - Queries::parse must return Err for a unique-query count of 0 or above 255 -
+// was attempted with empty query data and only the count symbolic: CBMC aborts in propositional reduction, as on
+// every other instantiation of Queries::parse tried. The repair is NOT guarded by an obligation; stated in
+// known_findings.json.)
+
 //# harness: fn=Table::from_bytes; label=complete in (rows, cols) over the sizes an honest prover can produce (1..=255 each); tier=quick; props=C01,C05
 #[cfg_attr(kani, kani::proof)]
 #[cfg_attr(kani, kani::unwind(3))]
